@@ -52,7 +52,7 @@ open Lifecycle in
 theorem kill_after_failed_start (P : Params) (hP : P.Good) (a b : Bool) :
     ∃ s, runFrom P (init .runnerFunc false) [.start false, .killA a b, .killB] = some s ∧
       s.dirsLive = 0 ∧ s.runner = none ∧ s.kills = 2 ∧ s.launches = 1 ∧ s.cached = none := by
-  obtain ⟨h1, h2, h3, h4, h5⟩ := hP
+  obtain ⟨h1, h2, h3, h4, h5, h6⟩ := hP
   simp [runFrom, step, doStart, init, emit, h1, h2, h4]
 
 open Lifecycle in
@@ -66,8 +66,8 @@ theorem retry_after_failed_start (P : Params) (hP : P.Good) (l : Launch) (alive 
 open Lifecycle in
 /-- Witness: if Kill's deferred function did not remove the directory it would stay. -/
 theorem dir_left_witness :
-    ∃ s, runFrom ⟨true, true, true, false, true⟩ (init .runnerFunc false) [.start false, .killA false false, .killB] = some s ∧
+    ∃ s, runFrom ⟨true, true, true, false, true, true⟩ (init .runnerFunc false) [.start false, .killA false false, .killB] = some s ∧
       s.dirsLive = 1 := by
-  refine ⟨(runFrom ⟨true, true, true, false, true⟩ (init .runnerFunc false) [.start false, .killA false false, .killB]).get (by decide), by simp, by decide⟩
+  refine ⟨(runFrom ⟨true, true, true, false, true, true⟩ (init .runnerFunc false) [.start false, .killA false false, .killB]).get (by decide), by simp, by decide⟩
 
 end GoPlugin.Props.C05
